@@ -44,3 +44,55 @@ def leaves(d, pre=()):
         else:
             out[pre + (k,)] = v
     return out
+
+
+# ---- the real RAMEmitter / orjson path: symbolic values are concretised by
+# forking in a Serializer registered through the repo's public registry
+from vivarium.core.registry import serializer_registry, Serializer
+from vsym import core as _core
+
+
+class _SymIntSerializer(Serializer):
+    python_type = _core.SymInt
+
+    def serialize(self, data):
+        return int(data)
+
+
+class _SymBoolSerializer(Serializer):
+    python_type = _core.SymBool
+
+    def serialize(self, data):
+        return bool(data)
+
+
+for _s in (_SymIntSerializer(), _SymBoolSerializer()):
+    serializer_registry.register(_s.name, _s)
+
+
+def walk_values(store, path=()):
+    """{path: value} of all non-process leaves, by the harness's own traversal
+    of Store.inner (independent of Store.get_value / emit_data)."""
+    from vivarium.core.process import Process
+    out = {}
+    if store.inner:
+        for k, ch in store.inner.items():
+            out.update(walk_values(ch, path + (k,)))
+    elif not isinstance(store.value, Process):
+        out[path] = store.value
+    return out
+
+
+from vivarium.core.emitter import RAMEmitter
+
+
+class RecRAMEmitter(RAMEmitter):
+    """The real RAMEmitter (serialize_value / orjson path) plus the hook."""
+
+    def emit(self, data):
+        super().emit(data)
+        if SINK['hook'] is not None:
+            SINK['hook'](data)
+
+
+emitter_registry.register('vsym_ram', RecRAMEmitter)
